@@ -151,7 +151,16 @@ def run(ctx):
             continue
         for ri in range(5):
             doc, text, op, variables = exec_mon.gen_request(rng, case)
-            for cls, vtext, opname, vvars, comparable in variants(rng, case, doc, text, op, variables):
+            todo = variants(rng, case, doc, text, op, variables)
+            if case.ir.subscription:
+                # a subscription document sent to the request/response entry points is a request like any other:
+                # it cannot be executed there, which is an error response
+                g = opgen.OpGen(rng, case.ir, max_depth=2)
+                g.doc = opgen.ODoc()
+                sop = g.operation(kind="subscription", name="SubscriptionSentAsRequest")
+                todo.append(("subscription-operation", opgen.document_text(g.doc), sop.name,
+                             opgen.variable_values(rng, case.sg, sop, nested=g.doc.nested_vars), False))
+            for cls, vtext, opname, vvars, comparable in todo:
                 config = rng.choice(["blocking", "blocking", "generic", "generic", "threadpool", "asyncio"])
                 witness = {"schema_sdl": case.sdl, "world_seed": case.world.seed, "document": vtext,
                            "operation_name": opname, "variables": vvars, "config": config, "class": cls, "nan_world": nan}
